@@ -465,6 +465,139 @@ fn c08_invariant_with(keys: &[Vec<u8>]) -> impl Fn(&Ctx, &mut World, &ExpState) 
     }
 }
 
+// ---- C08, second world: contract addresses that are prefixes of each other ("c", "cc", "ccc")
+
+struct PermissiveApi;
+impl cosmwasm_std::Api for PermissiveApi {
+    fn addr_validate(&self, human: &str) -> cosmwasm_std::StdResult<Addr> {
+        Ok(Addr::unchecked(human))
+    }
+    fn addr_canonicalize(&self, human: &str) -> cosmwasm_std::StdResult<cosmwasm_std::CanonicalAddr> {
+        Ok(human.as_bytes().to_vec().into())
+    }
+    fn addr_humanize(&self, canonical: &cosmwasm_std::CanonicalAddr) -> cosmwasm_std::StdResult<Addr> {
+        Ok(Addr::unchecked(String::from_utf8_lossy(canonical.as_slice()).to_string()))
+    }
+    fn secp256k1_verify(&self, _: &[u8], _: &[u8], _: &[u8]) -> Result<bool, cosmwasm_std::VerificationError> {
+        Ok(false)
+    }
+    fn secp256k1_recover_pubkey(&self, _: &[u8], _: &[u8], _: u8) -> Result<Vec<u8>, cosmwasm_std::RecoverPubkeyError> {
+        Ok(vec![])
+    }
+    fn ed25519_verify(&self, _: &[u8], _: &[u8], _: &[u8]) -> Result<bool, cosmwasm_std::VerificationError> {
+        Ok(false)
+    }
+    fn ed25519_batch_verify(&self, _: &[&[u8]], _: &[&[u8]], _: &[&[u8]]) -> Result<bool, cosmwasm_std::VerificationError> {
+        Ok(false)
+    }
+    fn debug(&self, _: &str) {}
+}
+
+struct PrefixAddresses;
+impl cw_multi_test::AddressGenerator for PrefixAddresses {
+    fn contract_address(&self, _api: &dyn cosmwasm_std::Api, _storage: &mut dyn cosmwasm_std::Storage, _code_id: u64, instance_id: u64) -> cw_multi_test::error::AnyResult<Addr> {
+        Ok(Addr::unchecked("c".repeat(instance_id as usize + 1)))
+    }
+}
+
+/// Every sequence of <= depth writes by contracts "c", "cc", "ccc" with keys that spell each
+/// other's address suffixes; after each write all three dumps, raw queries and accessor scans
+/// must equal a map-per-contract model.
+fn c08_prefix_world(ctx: &Ctx, depth: usize) -> (u64, u64) {
+    use cw_multi_test::{AppBuilder, Executor, WasmKeeper};
+    type PApp = cw_multi_test::App<cw_multi_test::BankKeeper, PermissiveApi, SnapStorage>;
+    let build = || -> PApp {
+        let mut app: PApp = AppBuilder::new()
+            .with_api(PermissiveApi)
+            .with_storage(SnapStorage::new())
+            .with_wasm(WasmKeeper::new().with_address_generator(PrefixAddresses))
+            .build(cw_multi_test::no_init);
+        let code = app.store_code(Box::new(super::puppet::Puppet { tag: 1 }));
+        super::puppet::set_script(std::rc::Rc::new(Program { entry: Entry::WasmSudo { contract: String::new() }, root: 0, nodes: vec![Node::default()] }));
+        for i in 0..3 {
+            let a = app.instantiate_contract(code, Addr::unchecked("user"), &super::puppet::NodeMsg { n: 0 }, &[], "p", None).unwrap();
+            assert_eq!(a.as_str(), "c".repeat(i + 1));
+        }
+        app
+    };
+    let contracts = ["c", "cc", "ccc"];
+    let keys: Vec<&[u8]> = vec![b"k", b"ck", b"c", b"", b"cck", b"/k"];
+    let mut ops: Vec<(usize, usize, bool)> = vec![];
+    for c in 0..3 {
+        for k in 0..keys.len() {
+            ops.push((c, k, true));
+            ops.push((c, k, false));
+        }
+    }
+    super::puppet::set_watch(super::puppet::Watch { ring: contracts.iter().map(|c| c.to_string()).collect(), ..Default::default() });
+    let mut seqs: Vec<Vec<usize>> = vec![vec![]];
+    let mut frontier: Vec<Vec<usize>> = vec![vec![]];
+    for _ in 0..depth {
+        let mut next = vec![];
+        for f in &frontier {
+            for o in 0..ops.len() {
+                let mut n = f.clone();
+                n.push(o);
+                next.push(n);
+            }
+        }
+        seqs.extend(next.iter().cloned());
+        frontier = next;
+    }
+    let mut transitions = 0u64;
+    for sq in &seqs {
+        let mut app = build();
+        let mut model: Vec<super::model::Map> = vec![Default::default(); 3];
+        for oi in sq {
+            let (c, k, set) = ops[*oi];
+            let w = if set { WriteOp::Set(keys[k].to_vec(), format!("v{}", c).into_bytes()) } else { WriteOp::Remove(keys[k].to_vec()) };
+            super::puppet::set_script(std::rc::Rc::new(Program { entry: Entry::WasmSudo { contract: String::new() }, root: 0, nodes: vec![Node { writes: vec![w.clone()], ..Default::default() }] }));
+            let r = catch(|| app.execute_contract(Addr::unchecked("user"), Addr::unchecked(contracts[c]), &super::puppet::NodeMsg { n: 0 }, &[]));
+            let trace = take_trace();
+            transitions += 1;
+            // what the contract itself saw at entry is its model map before the write
+            if let Some(rec) = trace.first() {
+                let own: super::model::Map = rec.own_store.iter().cloned().collect();
+                if own != model[c] {
+                    ctx.violation("c08:prefix-addresses:own-view-differs", json!({"engine": "prefix-world", "contract": contracts[c], "ops": sq.iter().map(|o| format!("{:?}", ops[*o])).collect::<Vec<_>>()}));
+                }
+            }
+            match w {
+                WriteOp::Set(k, v) => {
+                    model[c].insert(k, v);
+                }
+                WriteOp::Remove(k) => {
+                    model[c].remove(&k);
+                }
+            }
+            if !matches!(r, Ok(Ok(_))) {
+                ctx.violation("c08:prefix-addresses:write-failed", json!({"engine": "prefix-world", "contract": contracts[c], "result": format!("{:?}", r.map(|x| x.map(|_| ()).map_err(|e| e.to_string())))}));
+                break;
+            }
+            for (ci, cn) in contracts.iter().enumerate() {
+                let ad = Addr::unchecked(*cn);
+                let dump: super::model::Map = app.dump_wasm_raw(&ad).into_iter().collect();
+                let scan: super::model::Map = app.contract_storage(&ad).range(None, None, cosmwasm_std::Order::Ascending).collect();
+                let mut raw_ok = true;
+                for k in &keys {
+                    let raw = app.wrap().query_wasm_raw(cn.to_string(), k.to_vec()).ok().flatten().filter(|v| !v.is_empty());
+                    if raw != model[ci].get(*k).cloned() {
+                        raw_ok = false;
+                    }
+                }
+                if dump != model[ci] || scan != model[ci] || !raw_ok {
+                    ctx.violation(
+                        "c08:prefix-addresses:views-differ-from-model",
+                        json!({"engine": "prefix-world", "observed_contract": cn, "ops": sq.iter().map(|o| { let (c, k, s) = ops[*o]; format!("{} {} {}", contracts[c], if s { "set" } else { "remove" }, show(keys[k])) }).collect::<Vec<_>>(),
+                               "dump": dump.iter().map(|(k, v)| format!("{}={}", show(k), show(v))).collect::<Vec<_>>(), "model": model[ci].iter().map(|(k, v)| format!("{}={}", show(k), show(v))).collect::<Vec<_>>(), "raw_queries_agree": raw_ok}),
+                    );
+                }
+            }
+        }
+    }
+    (seqs.len() as u64, transitions)
+}
+
 pub fn run_c08(ctx: &Ctx) -> i32 {
     let homes = |k: Kind| matches!(k, Kind::State | Kind::StateMissing | Kind::EntryStore | Kind::EntryQuery | Kind::StateOnErr | Kind::Panic);
     let mut st = TreeStats::default();
@@ -536,14 +669,16 @@ pub fn run_c08(ctx: &Ctx) -> i32 {
         out3 = ex3.run(&start);
         outs.push(("storage-isolation-depth3", &out3));
     }
+    let (pseq, ptrans) = c08_prefix_world(ctx, ctx.tier.pick(2, 3));
     finish_explore(
         ctx,
         &outs,
         samples,
         json!({"operations": alphabet.len(), "keys": keys.iter().map(|k| show(k)).collect::<Vec<_>>(), "adversarial_keys_harvested_from_raw_state": adv.len(), "depth": 2,
+               "prefix_address_world": {"contracts": ["c", "cc", "ccc"], "keys": ["k", "ck", "c", "", "cck", "/k"], "write_sequences": pseq, "writes_executed_and_all_views_compared": ptrans},
                "thorough_second_exploration": {"operations": alphabet3.len(), "keys": keys3.len(), "depth": 3},
                "views_compared": ["contract's own get/range at entry (trace)", "WasmQuery::Raw", "dump_wasm_raw", "App::contract_storage get + range"]}),
-        vec!["contracts: two from the same code and one from another, default bech32 addresses (the prefix-address world of DESIGN C08 is not built)".into()],
+        vec!["main exploration: two contracts from the same code and one from another with default bech32 addresses; second world: a permissive Api and a custom AddressGenerator give the addresses c, cc, ccc (prefixes of each other)".into()],
         json!({}),
     )
 }
